@@ -152,6 +152,21 @@ impl Oracle for CrashOracle {
 				}
 				return Err(f("recipient failed the payment but the sender never saw PaymentFailed".into()));
 			}
+			if sent == 0 && failed == 0 {
+				// "outbound payments reach a truthful terminal event": everything has been resolved (on chain too), the
+				// handlers have run; a payment the sender still lists as pending although none of its HTLCs is pending
+				// in a channel or left to resolve on chain will never get its terminal event
+				use lightning::ln::channelmanager::RecentPaymentDetails as R;
+				let listed_pending = w.nodes[p.from].cm.list_recent_payments().iter().any(|r| matches!(r, R::Pending { payment_id, .. } if *payment_id == p.id));
+				let in_flight: usize = w.nodes[p.from].cm.list_channels().iter().map(|c| c.pending_outbound_htlcs.iter().filter(|x| x.payment_hash == p.hash).count()).sum();
+				let on_chain = w.nodes[p.from].mon.get_claimable_balances(&[]).iter().any(|b| !matches!(b, lightning::chain::channelmonitor::Balance::ClaimableOnChannelClose { .. }));
+				if listed_pending && in_flight == 0 && !on_chain && w.nodes[p.from].cm.list_channels().iter().all(|c| c.pending_outbound_htlcs.is_empty()) && !w.nodes[p.from].has_events() {
+					return Err(f(format!(
+						"the sender lists the payment as pending, none of its HTLCs is pending in a channel or left to resolve on chain, no event is queued: it will never see PaymentSent or PaymentFailed (restarted: {})",
+						restarted_sender
+					)));
+				}
+			}
 			label.push(if sent > 0 { 'S' } else if failed > 0 { 'F' } else { '?' });
 		}
 		label.push_str(&format!("o{}c{}", self.seen_outdated.len(), if self.any_closed { 1 } else { 0 }));
@@ -479,6 +494,9 @@ pub fn run(args: &Args) -> i32 {
 		.filter(|s| args.opt("only").map(|o| s.name.contains(o)).unwrap_or(true))
 		.map(to_runner)
 		.collect();
+	// the big enumerations last, so that a wall cap (loaded machine) cuts them rather than a small scenario
+	let mut scns = scns;
+	scns.sort_by_key(|s| if s.name.contains("deferred-stalled") || s.name.contains("abc-claim-async") { 3 } else if s.name.contains("-abc-") { 2 } else { 1 });
 	let r = run_scenarios("C10", args, scns, cap);
 	fill_model_checking_evidence(&mut ev, &r);
 	ev.set("evaluations", r.stats.executions);
